@@ -129,9 +129,14 @@ def nested_operator_programs():
     condition of if / elif / while and as a where clause.'''
     x = ('var', 'x')
     out = []
-    for e in A.expr_trees(3, ['and', '=='], KW_UNARY, [x]):
+    for e in A.expr_trees(3, ['and'], KW_UNARY, [x]):
         if A.count_nodes(e) >= 3:
             out.append(('nested', [('assign', ('var', 'r'), e, False)]))
+    card = ('un', 'cardinality', x)
+    for e in (('un', 'not', ('bin', '==', card, x)), ('bin', '==', ('un', 'not', card), x), ('bin', '==', card, card),
+              ('bin', '==', ('un', 'not', ('un', 'empty', x)), ('un', 'not_empty', x)), ('un', 'empty', ('bin', '==', card, x)),
+              ('bin', 'or', ('un', 'not', ('bin', '==', card, x)), ('un', 'not', ('un', 'not_empty', x)))):
+        out.append(('nested_cmp', [('assign', ('var', 'r'), e, False)]))
     for o1 in KW_UNARY:
         for o2 in KW_UNARY:
             e = ('un', o1, ('un', o2, x))
@@ -446,7 +451,7 @@ def prebuild_task(ctx, task):
             from_tok = 0
             occs = [o for o in keyword_occurrences(p, from_tok) if o.split('#')[0] in H.SPELLED_THROUGH]
             rs += [{o: st} for o in occs for st in ('upper', 'cap')]
-            if len(occs) <= 6:
+            if len(occs) <= 4:
                 rs += [{o1: s1, o2: s2} for o1, o2 in itertools.combinations(occs, 2) for s1 in ('upper',) for s2 in ('upper', 'cap')]
             ctx.count('prebuild_per_occurrence_programs')
         for r in rs:
@@ -467,6 +472,13 @@ def prebuild_task(ctx, task):
                 continue
             ctx.count('traces')
             ctx.distinct('nontrivial', ('prebuild', name, repr(stmts), repr(sorted(r.items()))))
+
+
+def parse_any(ctx, task):
+    if task[0] == 'nested':
+        nested_parse_task(ctx, task[1:])
+    else:
+        parse_task(ctx, task)
 
 
 def chunks(seq, n):
@@ -534,17 +546,22 @@ def run(ctx):
     progs = parse_corpus()
     k = ctx.seed % 3
     progs = progs[k:] + progs[:k]
-    ctx.pmap(parse_task, [(ctx.tier, c) for c in chunks(progs, 8)])
-    ctx.pmap(nested_parse_task, [(ctx.tier, c) for c in chunks(nested_operator_programs(), 8)])
+    ctx.pmap(parse_any, [('nested', ctx.tier, c) for c in chunks(nested_operator_programs(), 4)] + [(ctx.tier, c) for c in chunks(progs, 8)])
     ctx.require(ctx.n('nested_parses') >= 2000, 'too few renderings of nested keyword operators (%d)' % ctx.n('nested_parses'))
     corpus = interpret_corpus(ctx.tier)
-    ctx.pmap(interpret_task, [(ctx.tier, c) for c in chunks(corpus, 10)])
+    # the programs rendered per occurrence have many more renderings each: small chunks, started first
+    heavy = [p for p in corpus if has_nested_unary(p[-1])]
+    light = [p for p in corpus if not has_nested_unary(p[-1])]
+    ctx.pmap(interpret_task, [(ctx.tier, c) for c in chunks(heavy, 2)] + [(ctx.tier, c) for c in chunks(light, 10)])
     ctx.pmap(operation_task, operation_bodies())
     ctx.require(ctx.n('interpret_per_occurrence_programs') >= 10, 'too few interpreted programs with nested keyword operators (%d)'
                 % ctx.n('interpret_per_occurrence_programs'))
     ctx.require(ctx.n('operation_runs') >= 50, 'too few operation-body renderings (%d)' % ctx.n('operation_runs'))
     if prebuild_available():
-        ctx.pmap(prebuild_task, [(ctx.tier, c) for c in chunks(prebuild_corpus(ctx.tier), 6)])
+        pc = prebuild_corpus(ctx.tier)
+        heavy = [x for x in pc if len(x) > 3]
+        light = [x for x in pc if len(x) <= 3]
+        ctx.pmap(prebuild_task, [(ctx.tier, [x]) for x in heavy] + [(ctx.tier, c) for c in chunks(light, 6)])
         ctx.require(ctx.n('prebuild_runs') >= 300, 'too few prebuild renderings (%d)' % ctx.n('prebuild_runs'))
         ctx.require(ctx.n('prebuild_per_occurrence_programs') >= 20, 'too few prebuilt programs with nested keyword operators (%d)'
                     % ctx.n('prebuild_per_occurrence_programs'))
